@@ -1248,3 +1248,114 @@ Section Glue.
   Qed.
 
 End Glue.
+
+(* ------------------------------------------------------------------ 7. closed statements, non-vacuity *)
+(* Box-like destructors that allocate nothing *)
+Definition boxlike (d : RP.dtors) : Prop :=
+  (forall q, RP.d_owns d q = [] \/ exists t, RP.d_owns d q = [t]) /\ (forall q, RP.d_spawns d q = []).
+
+(* boolean form of the extra admissibility (no address reuse), for examples *)
+Fixpoint gadm_runb (hashf : N -> N) (d : RP.dtors) (ops : list RM.op) (g : RM.gc) : bool :=
+  match ops with
+  | [] => true
+  | o :: r =>
+    (match o with
+     | RM.OAlloc p _ _ => negb (RM.running g) || negb (ever p (RM.evs g))
+     | RM.OFinRaw p => negb (ever p (RM.evs g))
+     | _ => true
+     end) && gadm_runb hashf d r (fst (RP.Gstep hashf d true true g o))
+  end.
+
+Lemma gadm_runb_ok hashf d : forall ops g, gadm_runb hashf d ops g = true -> gadm_run hashf d ops g.
+Proof.
+  induction ops as [|o ops IH]; intros g H; [exact I|].
+  simpl in H. apply andb_true_iff in H. destruct H as [H1 H2]. split; [|apply IH; exact H2].
+  destruct o; simpl; auto.
+  - intros Hr. rewrite Hr in H1. simpl in H1. apply negb_true_iff in H1. exact H1.
+  - apply negb_true_iff in H1. exact H1.
+Qed.
+
+Theorem glue_sweep_thm : forall hashf d, boxlike d -> forall A g s g',
+  TabM hashf g -> RM.pending g = [] -> Rel d g s -> GInv A s ->
+  RP.Gsweep hashf d true true g = Some g' ->
+  Tab hashf g' /\ Rel d g' (sweep true (fin_top true true true) (c_order g) (c_marks g) s) /\
+  RM.pending g' = [] /\ Mono g g'.
+Proof. intros hashf d [B N]. exact (glue_sweep hashf d B N). Qed.
+
+Theorem glue_rem_thm : forall hashf d, boxlike d -> forall f A g s p g',
+  Tab hashf g -> Rel d g s -> GInv A s ->
+  RP.Grem hashf d true f g p = Some g' ->
+  Tab hashf g' /\ Rel d g' (gc_rem true (fin_top true true true) s (idn p)) /\ Mono g g'.
+Proof. intros hashf d [B N]. exact (glue_rem hashf d B N). Qed.
+
+Theorem glue_history_thm : forall hashf d, boxlike d -> RP.dtors_ok d -> forall ops,
+  RP.Gadm hashf d true true ops RM.gc_init -> gadm_run hashf d ops RM.gc_init ->
+  let gs := crun hashf d ops RM.gc_init (cinit d) in
+  fst gs = RP.Grun hashf d true true ops RM.gc_init /\ GL hashf d (fst gs) (snd gs).
+Proof.
+  intros hashf d [B N] Hd ops Ha Hg. split; [apply crun_fst|].
+  apply (glue_run hashf d B N Hd); [apply GL_init | exact Ha | exact Hg].
+Qed.
+
+(* C06 over the concrete registry (fragment: Box-like destructors that allocate nothing, no address
+   reuse).  FULL STATEMENT still open: the same with destructors that allocate (C17's d_spawns,
+   `allocation_during_sweep`), i.e. for every dtors_ok d whose d_owns is Box-like and whose d_spawns
+   yields non-root objects; what is missing is the simulation of C17's spawn_set by alloc_child
+   (C17 runs the deletions of a destructor before its allocations and only flags a threshold crossing
+   outside a sweep, the life-cycle machine allocates first and runs that collection), and identities
+   for re-used addresses. *)
+Theorem over_concrete_registry_partial : forall hashf d, boxlike d -> RP.dtors_ok d -> forall ops,
+  RP.Gadm hashf d true true ops RM.gc_init -> gadm_run hashf d ops RM.gc_init ->
+  (* no address is finalised twice *)
+  (forall p, cnt_fin p (RM.evs (RP.Grun hashf d true true ops RM.gc_init)) <= 1) /\
+  (* if the history ends with teardown (GC_Del's sweep), every non-root address registered just
+     before it has been finalised exactly once *)
+  (forall ops' p, ops = ops' ++ [RM.OSweep] ->
+     RP.Regs (RM.slots (RP.Grun hashf d true true ops' RM.gc_init)) p false ->
+     cnt_fin p (RM.evs (RP.Grun hashf d true true ops RM.gc_init)) = 1) /\
+  (* if it ends with del / del_root of a registered address while the collector runs, that address
+     has been finalised exactly once *)
+  (forall ops' p r, ops = ops' ++ [RM.ORem p] ->
+     RM.running (RP.Grun hashf d true true ops' RM.gc_init) = true ->
+     RP.Regs (RM.slots (RP.Grun hashf d true true ops' RM.gc_init)) p r ->
+     cnt_fin p (RM.evs (RP.Grun hashf d true true ops RM.gc_init)) = 1).
+Proof.
+  intros hashf d [B N] Hd ops Ha Hg. split; [|split].
+  - intros p. apply (concrete_finalised_at_most_once hashf d B N Hd); assumption.
+  - intros ops' p -> Hreg. apply (concrete_teardown_complete hashf d B N Hd); assumption.
+  - intros ops' p r -> Hrun Hreg. apply (concrete_delete_finalises hashf d B N Hd ops' p r); assumption.
+Qed.
+
+(* non-vacuity: Box 8 owns 16 (both managed), 24 is a root, 32 a plain managed object; addresses
+   collide modulo small table sizes; a collection with an empty stack reclaims 8, 16 and 32 (the Box
+   and its object in the same sweep: the D18 scenario on the concrete table), then teardown *)
+Definition gx_hash (p : N) : N := N.shiftr p 3.
+Definition gx_d : RP.dtors := RP.mkD (fun p => if N.eqb p 8 then [16%N] else []) (fun _ => []) [16%N].
+Definition gx_ops : list RM.op :=
+  [RM.OAlloc 16 false [16%N]; RM.OAlloc 8 false [8%N; 16%N]; RM.OAlloc 24 true [8%N; 16%N; 24%N];
+   RM.OAlloc 32 false [8%N; 16%N; 24%N; 32%N]; RM.OAlloc 40 false [8%N; 16%N; 24%N; 32%N; 40%N];
+   RM.ORem 32; RM.OCollect [40%N]; RM.OSweep].
+
+Lemma gx_boxlike : boxlike gx_d.
+Proof.
+  split; [|reflexivity]. intros q. simpl. destruct (N.eqb q 8); [right; exists 16%N; reflexivity | left; reflexivity].
+Qed.
+
+Lemma gx_dok : RP.dtors_ok gx_d.
+Proof.
+  split; [|split].
+  - simpl. constructor; [intros [] | constructor].
+  - intros q t. simpl. destruct (N.eqb q 8); simpl; [tauto | intros []].
+  - intros q p r [].
+Qed.
+
+Example gx_admissible :
+  RP.Gadm gx_hash gx_d true true gx_ops RM.gc_init /\ gadm_run gx_hash gx_d gx_ops RM.gc_init.
+Proof. split; [apply RP.adm_runb_ok | apply gadm_runb_ok]; vm_compute; reflexivity. Qed.
+
+Example gx_not_trivial :
+  let g := RP.Grun gx_hash gx_d true true gx_ops RM.gc_init in
+  cnt_fin 8 (RM.evs g) = 1 /\ cnt_fin 16 (RM.evs g) = 1 /\ cnt_fin 32 (RM.evs g) = 1 /\
+  cnt_fin 40 (RM.evs g) = 1 /\ cnt_fin 24 (RM.evs g) = 0 /\
+  In (RM.EvReclaim 8) (RM.evs g) /\ In (RM.EvReclaim 16) (RM.evs g) /\ In (RM.EvRem 16) (RM.evs g).
+Proof. vm_compute. repeat split; tauto. Qed.
